@@ -146,10 +146,22 @@ pub open spec fn heads_put_all(m: Map<AuthorId, u64>, items: Seq<(u64, AuthorId)
 /// `r` is the pointwise maximum of `m` and the items: same authors as `m` plus the item authors, each head an upper
 /// bound of everything named for that author, and attained by `m` or by one of the items
 pub open spec fn is_max_merge(r: Map<AuthorId, u64>, m: Map<AuthorId, u64>, items: Seq<(u64, AuthorId)>) -> bool {
-    &&& (forall|a: AuthorId| #[trigger] r.contains_key(a) <==> (m.contains_key(a) || exists|i: int| 0 <= i < items.len() && (#[trigger] items[i]).1 == a))
-    &&& (forall|a: AuthorId| #[trigger] r.contains_key(a) && m.contains_key(a) ==> m[a] <= r[a])
-    &&& (forall|i: int| 0 <= i < items.len() ==> r.contains_key((#[trigger] items[i]).1) && items[i].0 <= r[items[i].1])
-    &&& (forall|a: AuthorId| #[trigger] r.contains_key(a) ==> ((m.contains_key(a) && r[a] == m[a]) || exists|i: int| 0 <= i < items.len() && #[trigger] items[i] == (r[a], a)))
+    &&& mm_authors(r, m, items)
+    &&& mm_above_old(r, m)
+    &&& mm_above_items(r, items)
+    &&& mm_attained(r, m, items)
+}
+pub open spec fn mm_authors(r: Map<AuthorId, u64>, m: Map<AuthorId, u64>, items: Seq<(u64, AuthorId)>) -> bool {
+    forall|a: AuthorId| #[trigger] r.contains_key(a) <==> (m.contains_key(a) || exists|i: int| 0 <= i < items.len() && (#[trigger] items[i]).1 == a)
+}
+pub open spec fn mm_above_old(r: Map<AuthorId, u64>, m: Map<AuthorId, u64>) -> bool {
+    forall|a: AuthorId| #[trigger] r.contains_key(a) && m.contains_key(a) ==> m[a] <= r[a]
+}
+pub open spec fn mm_above_items(r: Map<AuthorId, u64>, items: Seq<(u64, AuthorId)>) -> bool {
+    forall|i: int| 0 <= i < items.len() ==> r.contains_key((#[trigger] items[i]).1) && items[i].0 <= r[items[i].1]
+}
+pub open spec fn mm_attained(r: Map<AuthorId, u64>, m: Map<AuthorId, u64>, items: Seq<(u64, AuthorId)>) -> bool {
+    forall|a: AuthorId| #[trigger] r.contains_key(a) ==> ((m.contains_key(a) && r[a] == m[a]) || exists|i: int| 0 <= i < items.len() && #[trigger] items[i] == (r[a], a))
 }
 
 pub proof fn lemma_put_all_is_max_merge(m: Map<AuthorId, u64>, items: Seq<(u64, AuthorId)>)
@@ -192,6 +204,13 @@ pub proof fn lemma_put_all_is_max_merge(m: Map<AuthorId, u64>, items: Seq<(u64, 
                 }
             }
         }
+        assert(mm_authors(r, m, items));
+        assert forall|b: AuthorId| #[trigger] r.contains_key(b) && m.contains_key(b) implies m[b] <= r[b] by {
+            assert(p.contains_key(b));
+        }
+        assert(mm_above_old(r, m));
+        assert(mm_above_items(r, items));
+        assert(mm_attained(r, m, items));
     }
 }
 
@@ -213,15 +232,19 @@ pub open spec fn merged_ts(ours: Map<AuthorId, u64>, theirs: Map<AuthorId, u64>,
     if ours.contains_key(a) && (!theirs.contains_key(a) || ours[a] >= theirs[a]) { ours[a] } else { theirs[a] }
 }
 
+/// `r` is the pointwise maximum of `ours` and `theirs`
+pub open spec fn is_merged(r: Map<AuthorId, u64>, ours: Map<AuthorId, u64>, theirs: Map<AuthorId, u64>) -> bool {
+    &&& (forall|a: AuthorId| #[trigger] r.contains_key(a) <==> (ours.contains_key(a) || theirs.contains_key(a)))
+    &&& (forall|a: AuthorId| #[trigger] r.contains_key(a) ==> r[a] == merged_ts(ours, theirs, a))
+}
+
+/// inserting every item of an enumeration of `theirs` into `ours` yields the pointwise maximum
 pub proof fn lemma_merge_enumeration<'a>(ours: Map<AuthorId, u64>, theirs: Map<AuthorId, u64>, s: Seq<(&'a AuthorId, &'a u64)>)
     requires enumerates(s, theirs)
-    ensures ({
-        let r = heads_put_all(ours, owned_items(s));
-        &&& (forall|a: AuthorId| #[trigger] r.contains_key(a) <==> (ours.contains_key(a) || theirs.contains_key(a)))
-        &&& (forall|a: AuthorId| #[trigger] r.contains_key(a) ==> r[a] == merged_ts(ours, theirs, a))
-    })
+    ensures is_merged(heads_put_all(ours, owned_items(s).take(s.len() as int)), ours, theirs)
 {
     let items = owned_items(s);
+    assert(items.take(s.len() as int) =~= items);
     let r = heads_put_all(ours, items);
     lemma_put_all_is_max_merge(ours, items);
     assert forall|a: AuthorId| #[trigger] r.contains_key(a) <==> (ours.contains_key(a) || theirs.contains_key(a)) by {
